@@ -522,4 +522,66 @@ MUTANTS = [
       "                    force_ans(head),\n                    force_ans(tail),", "                    force_ans(head),", {"C17": "labeling-coverage"}),
     M("silent-c17-unnarrowed-u", ["C17", "C16"], "src/relation/clpfd/plusfd.rs",
       "wmin.saturating_sub(vmax)..=wmax.saturating_sub(vmin),", "umin..=umax,", silent=True),
+    M("c23-new-unwrap-in-next", ["C23"], "src/solver.rs",
+      "                Stream::Lazy(LazyStream(lazy)) => *stream = self.engine.step(self, *lazy),\n                Stream::Cons(state, lazy_stream) => {",
+      "                Stream::Lazy(LazyStream(lazy)) => *stream = self.engine.step(self, *lazy),\n                Stream::Cons(state, lazy_stream) => {\n                    let _ = stream.head().unwrap();",
+      {"C23": "Solver::next|unwrap"}),
+    M("c23-f13-returns", ["C23"], "src/state/mod.rs",
+      "            _ if domain.is_empty() => Err(()),\n", "", {"C23": ""}),
+    M("silent-c23-guarded-plain-division", ["C23", "C19"], "src/relation/clpz/timesz.rs",
+      """                    match (w.checked_rem(*u), w.checked_div(*u)) {
+                        (Some(0), Some(v)) => {
+                            state.smap_to_mut().extend(vwalk.clone(), LTerm::from(v));
+                            state.run_constraints()
+                        }
+                        /* No integer v with u * v = w. */
+                        _ => Err(()),
+                    }""",
+      """                    if w % u == 0 {
+                        state.smap_to_mut().extend(vwalk.clone(), LTerm::from(w / u));
+                        state.run_constraints()
+                    } else {
+                        Err(())
+                    }""",
+      silent=True),
+    M("c23-f12-div-returns", ["C23"], "src/relation/clpz/timesz.rs",
+      """                if *u == 0 {
+                    if *w == 0 {
+                        /* 0 * v = 0 holds for every v: keep the constraint. */
+                        Ok(state.with_constraint(self))
+                    } else {
+                        Err(())
+                    }
+                } else {""",
+      """                if *u == 0 && false {
+                    if *w == 0 {
+                        /* 0 * v = 0 holds for every v: keep the constraint. */
+                        Ok(state.with_constraint(self))
+                    } else {
+                        Err(())
+                    }
+                } else {""",
+      {"C23": ""}, more=[("src/relation/clpz/timesz.rs", """                    match (w.checked_rem(*u), w.checked_div(*u)) {
+                        (Some(0), Some(v)) => {
+                            state.smap_to_mut().extend(vwalk.clone(), LTerm::from(v));
+                            state.run_constraints()
+                        }
+                        /* No integer v with u * v = w. */
+                        _ => Err(()),
+                    }""", """                    if w % u == 0 {
+                        state.smap_to_mut().extend(vwalk.clone(), LTerm::from(w / u));
+                        state.run_constraints()
+                    } else {
+                        Err(())
+                    }""")]),
+    M("c23-unguarded-get-number", ["C23"], "src/relation/clpfd/ltefd.rs",
+      "            (Some(udomain), None) if vwalk.is_number() => {", "            (Some(udomain), None) if !vwalk.is_var() => {", {"C23": "ltefd"}),
+    M("c23-index-in-engine", ["C23"], "src/operator/conde.rs",
+      "            if self.conjunctions.len() > 0 {\n                let new_stream = bfs.conjunctions[0].solve(solver, state);",
+      "            if self.conjunctions.len() > 0 || true {\n                let new_stream = bfs.conjunctions[0].solve(solver, state);",
+      {"C23": ""}),
+    M("c23-second-caller-of-update", ["C23"], "src/state/mod.rs",
+      "    pub fn remove_domain(mut self, x: &LTerm<U, E>) -> SResult<U, E> {",
+      "    pub fn set_domain(self, x: &LTerm<U, E>, d: Rc<FiniteDomain>) -> SResult<U, E> {\n        self.update_var_domain(x, d)\n    }\n\n    pub fn remove_domain(mut self, x: &LTerm<U, E>) -> SResult<U, E> {",
+      {"C23": "callers"}),
 ]
